@@ -33,9 +33,11 @@ theorem forall_byte (P : UInt8 → Prop) (h : ∀ n : Fin 256, P (UInt8.ofNat n.
   have := h ⟨b.toNat, UInt8.toNat_lt b⟩
   simpa using this
 
-theorem kwc_ne (b : UInt8) (h : isKwChar b = true) : b ≠ 0 ∧ lower b ≠ 0 ∧ b ≠ 35 := by
+theorem kwc_ne (b : UInt8) (h : (isKwChar b || b == 42) = true) :
+    b ≠ 0 ∧ lower b ≠ 0 ∧ b ≠ 35 ∧ lower b ≠ 63 ∧ lower b ≠ 58 ∧ [63, 58, 91, 93].contains b = false := by
   revert h
-  apply forall_byte (fun b => isKwChar b = true → b ≠ 0 ∧ lower b ≠ 0 ∧ b ≠ 35)
+  apply forall_byte (fun b => (isKwChar b || b == 42) = true →
+    b ≠ 0 ∧ lower b ≠ 0 ∧ b ≠ 35 ∧ lower b ≠ 63 ∧ lower b ≠ 58 ∧ [63, 58, 91, 93].contains b = false)
   set_option maxRecDepth 100000 in decide
 
 theorem ciEq_comm (x y : Bytes) : ciEq x y = ciEq y x := by
@@ -113,7 +115,7 @@ theorem compareStrAndNum_spec (a : Bytes) (ao : Nat) (form ra : Bytes) (b : Byte
     (hm : ∀ c ∈ m, isDigit c = false → nonNumStart c = true)
     (hrb : nonNumStart (rb.headD 0) = true) :
     (compareStrAndNum a ao form.length b bo m.length num).1 = (tryForm true m form).isSome ∧
-    ((∀ v, tryForm true m form = some (some v) → v < 2^31) →
+    ((num = true → ∀ v, tryForm true m form = some (some v) → v < 2^31) →
       compareStrAndNum a ao form.length b bo m.length num = mpRes (tryForm true m form) num) := by
   by_cases hlt : m.length < form.length
   · have h1 : ciEq m form = false := by
@@ -180,7 +182,7 @@ theorem compareStrAndNum_spec (a : Bytes) (ao : Nat) (form ra : Bytes) (b : Byte
             constructor
             · simp [compareStrAndNum, hlt, hce, heq, htf, hd, tl, hused]
             · intro hv
-              have hsm := hv (natOfDigits tl) (by rw [htf]; simp [hd, tl])
+              have hsm := hv rfl (natOfDigits tl) (by rw [htf]; simp [hd, tl])
               have hval := hst.2 hsm
               simp only [compareStrAndNum, hlt, if_false, hce, if_true, heq, beq_iff_eq, htf, hd, tl, mpRes]
               have : strtol10 b (bo + form.length) =
@@ -211,26 +213,32 @@ theorem compareStrAndNum_spec (a : Bytes) (ao : Nat) (form ra : Bytes) (b : Byte
 theorem tryForm_false (m form : Bytes) :
     tryForm false m form = if ciEq m form then some none else none := by simp [tryForm]
 
-theorem KwOK.long_nz {k : Kw} (hk : KwOK k) : ∀ c ∈ k.long, c ≠ 0 ∧ lower c ≠ 0 ∧ c ≠ 35 := by
+theorem KwW.long_all {k : Kw} (hk : KwW k) : ∀ c ∈ k.long,
+    c ≠ 0 ∧ lower c ≠ 0 ∧ c ≠ 35 ∧ lower c ≠ 63 ∧ lower c ≠ 58 ∧ [63, 58, 91, 93].contains c = false := by
   intro c hc
   exact kwc_ne c (by have := hk.chars; simp only [List.all_eq_true] at this; exact this c hc)
 
-theorem KwOK.short_prefix {k : Kw} (hk : KwOK k) :
+theorem KwW.long_nz {k : Kw} (hk : KwW k) : ∀ c ∈ k.long, c ≠ 0 ∧ lower c ≠ 0 ∧ c ≠ 35 := by
+  intro c hc
+  have := hk.long_all c hc
+  exact ⟨this.1, this.2.1, this.2.2.1⟩
+
+theorem KwW.short_prefix {k : Kw} (hk : KwW k) :
     k.long = k.short ++ k.long.dropWhile (fun b => !isLower b) := by
   rw [hk.short_eq, List.takeWhile_append_dropWhile]
 
-theorem KwOK.short_mem {k : Kw} (hk : KwOK k) : ∀ c ∈ k.short, c ∈ k.long := by
+theorem KwW.short_mem {k : Kw} (hk : KwW k) : ∀ c ∈ k.short, c ∈ k.long := by
   intro c hc; rw [hk.short_eq] at hc
   exact (List.takeWhile_sublist _).subset hc
 
 /-- `matchPattern` on the text of keyword `k` and a mnemonic `m` computes `kwMatch k m` -/
 theorem matchPattern_spec (p : Bytes) (po : Nat) (k : Kw) (prest : Bytes) (c : Bytes) (so : Nat)
     (m crest : Bytes) (num : Bool)
-    (hk : KwOK k) (hp : p.drop po = keyText k ++ prest) (hc : c.drop so = m ++ crest)
+    (hk : KwW k) (hp : p.drop po = keyText k ++ prest) (hc : c.drop so = m ++ crest)
     (hm : ∀ b ∈ m, isDigit b = false → nonNumStart b = true)
     (hcr : nonNumStart (crest.headD 0) = true) :
     (matchPattern p po (keyText k).length c so m.length num).1 = (kwMatch k m).isSome ∧
-    ((∀ v, kwMatch k m = some (some v) → v < 2^31) →
+    ((num = true → ∀ v, kwMatch k m = some (some v) → v < 2^31) →
       matchPattern p po (keyText k).length c so m.length num = mpRes (kwMatch k m) num) := by
   have hnz := hk.long_nz
   have hlne : 0 < k.long.length := List.length_pos_iff.mpr hk.ne
